@@ -25,7 +25,7 @@ type c06Case struct {
 }
 
 func genC06(t *rapid.T) *c06Case {
-	cfg := gen.ImgCfg{MaxSide: 70, BigChance: 6, BigSide: 140, Kinds: []string{"nrgba", "nrgba", "rgba", "generic", "gray", "ycbcr420"}}
+	cfg := gen.ImgCfg{MaxSide: 70, BigChance: 6, BigSide: 140}
 	if tierThorough() {
 		cfg.MaxSide, cfg.BigSide = 100, 300
 	}
